@@ -498,15 +498,15 @@ static void case_kde(Rng& rng, uint64_t index)
 
 static void setup()
 {
-	add_generator("uniform", ctx().count(2400, 60000), case_uniform);
-	add_generator("normal", ctx().count(6000, 150000), case_gauss);
-	add_generator("exponential", ctx().count(2400, 60000), case_exponential);
-	add_generator("maxwell_boltzmann", ctx().count(3200, 80000), case_maxwell);
-	add_generator("chi_square", ctx().count(9600, 240000), case_chi_square);
-	add_generator("chi_bar_square", ctx().count(4800, 120000), case_chi_bar);
-	add_generator("binomial", ctx().count(4800, 120000), case_binomial);
-	add_generator("poisson", ctx().count(3200, 80000), case_poisson);
-	add_generator("poisson_likelihoods", ctx().count(8000, 200000), case_likelihood);
-	add_generator("kde", ctx().count(1200, 30000), case_kde);
+	add_generator("uniform", ctx().count(2400, 120000), case_uniform);
+	add_generator("normal", ctx().count(6000, 300000), case_gauss);
+	add_generator("exponential", ctx().count(2400, 120000), case_exponential);
+	add_generator("maxwell_boltzmann", ctx().count(3200, 160000), case_maxwell);
+	add_generator("chi_square", ctx().count(9600, 480000), case_chi_square);
+	add_generator("chi_bar_square", ctx().count(4800, 240000), case_chi_bar);
+	add_generator("binomial", ctx().count(4800, 240000), case_binomial);
+	add_generator("poisson", ctx().count(3200, 160000), case_poisson);
+	add_generator("poisson_likelihoods", ctx().count(8000, 400000), case_likelihood);
+	add_generator("kde", ctx().count(1200, 60000), case_kde);
 }
 VERIF_MAIN("C07", setup)
